@@ -293,7 +293,9 @@ class TheoryOracle(walkers.DagWalker):
         return theory_out
 
     def walk_pow(self, formula: FNode, args: List[Theory], **kwargs) -> Theory:
-        return args[0].set_linear(False)
+        # A power is Real-typed, also when the base is an Int term
+        theory_out = args[0].combine(self._theory_from_type(types.REAL))
+        return theory_out.set_linear(False)
 
     def walk_plus(self, formula: FNode, args: List[Theory], **kwargs) -> Theory:
         theory_out = args[0]
